@@ -69,6 +69,17 @@ def cases(tier, seed, args):
                         neg=bool(rng.integers(2)), seed=int(rng.integers(1 << 30)), q=qv, frac=fr, w=w,
                         regime=['lat', 'tied', 'distinct'][i % 3], scalar_axis=bool(naxes == 1 and i % 3 == 0),
                         qtuple=[0, 0, 1, 2, 3][(i // 2) % 5] if fn == 'quantile' else 0))
+    # quantile thresholds that coincide with a sample: (N - 1) |q| integer, or mostly silent inputs (threshold 0)
+    for i in range(12 if q else 72):
+        n = 2 + i % 2
+        odd = [3, 5, 7][(i // 2) % 3]
+        shape = [int(rng.integers(1, 4)) for _ in range(n)]
+        ax = int(rng.integers(n))
+        shape[ax] = odd if i % 3 else 11
+        qv = [[-1, 2], [1, 2], [-9, 10] if shape[ax] == 11 else [-1, 2], [-1, 4]][i % 4]
+        out.append(dict(t='mask', fn='quantile', n=n, ka=0, da=None, keepdims=False, axes=[ax], shape=shape,
+                        neg=bool(rng.integers(2)), seed=int(rng.integers(1 << 30)), q=qv, frac=[1, 2], w=[[999, 1000], [1, 2]][i % 2],
+                        regime=['distinct', 'silent', 'distinct', 'tied'][(i // 4) % 4], scalar_axis=bool(i % 2), qtuple=0))
     return out
 
 
@@ -84,6 +95,8 @@ def _signal(rng, shape, regime):
         s = lat[rng.integers(0, 6, size=shape)]
     if regime == 'zero':
         s = s * (rng.random(shape) < 0.5)
+    if regime == 'silent':
+        s = s * (rng.random(shape) < 0.25)       # mostly silent time-frequency points
     return s
 
 
